@@ -345,6 +345,15 @@ func (b *Builder) genField(ctx pairCtx, src, dst *SDecl, name, mech string) {
 		if b.chance(0.1) {
 			nf = 0
 		}
+		if mech == "nested" && ns.Pkg == nd.Pkg && b.chance(0.15) {
+			// a member that points back to the type of its own (by-value) struct, assignable from a
+			// same-typed source member: recursive types are ordinary fields
+			back := fmt.Sprintf("Next%d", b.next())
+			pt := "*" + nd.Ref()
+			nd.Fields = append(nd.Fields, FDecl{Name: back, Type: pt})
+			ns.Fields = append(ns.Fields, FDecl{Name: back, Type: pt})
+			b.addProbe(sub, back, "same", pt, pt, "self-pointer")
+		}
 		st, dt := ns.Ref(), nd.Ref()
 		if same && (ns.Pkg == nd.Pkg) {
 			// same struct type on both sides: whole-struct copy
